@@ -184,6 +184,8 @@ impl Val for bool { fn draw<S: Src>(s: &mut S) -> Self { s.boolean() } }
 impl Val for u16 { fn draw<S: Src>(s: &mut S) -> Self { s.u16() } }
 impl Val for u32 { fn draw<S: Src>(s: &mut S) -> Self { s.u32() } }
 impl Val for u64 { fn draw<S: Src>(s: &mut S) -> Self { s.u64() } }
+impl Val for usize { fn draw<S: Src>(s: &mut S) -> Self { s.u64() as usize } }
+impl Val for isize { fn draw<S: Src>(s: &mut S) -> Self { s.u64() as isize } }
 impl Val for f32 { fn draw<S: Src>(s: &mut S) -> Self { s.f32() } }
 impl Val for &'static u8 { fn draw<S: Src>(s: &mut S) -> Self { Box::leak(Box::new(s.u8())) } }
 impl Val for char { fn draw<S: Src>(s: &mut S) -> Self { char::from_u32(s.u16() as u32).unwrap_or('a') } }
